@@ -447,6 +447,11 @@ theorem invL_step (c0 : Cfg) (hne : c0.incoming ≠ [] ∨ c0.outgoing ≠ []) (
       · exact keep_node s hI i l (Or.inr (Or.inr (Or.inr (Or.inr (Or.inl hl)))))
       · simp [OMsg.isAck] at hk
     · cases h
+  | read r =>
+    simp only [applyEvent, ok] at h
+    split at h
+    · cases h; exact ⟨hI.pfl, fun m hm => ⟨(hI.msg m hm).hl, (hI.msg m hm).len, (hI.msg m hm).slice, (hI.msg m hm).anchor⟩, hI.lterm, hI.nole, hI.ll, hI.tle, hI.stle, hI.cand, hI.pos⟩
+    · cases h
   | win i cfg q =>
     simp only [applyEvent, ok] at h
     split at h
